@@ -322,6 +322,12 @@ func (ex *Exec) trailingZeros(x *Term) *Term {
 		}
 		return BVC(64, uint64(n))
 	}
+	// tz(1 << s) = s for s < w
+	if x.Op == OBVShl && x.Args[0].Op == OConst && x.Args[0].C == 1 {
+		if mx, ok := maxU(x.Args[1]); ok && mx < uint64(w) {
+			return c.ZExt(64-w, x.Args[1])
+		}
+	}
 	r := BVC(64, uint64(w))
 	for i := w - 1; i >= 0; i-- {
 		bit := c.Eq(c.Extract(i, i, x), BVC(1, 1))
